@@ -115,6 +115,7 @@ func runC18(c *an.Ctx) {
 		}})
 	}
 	checkRemainderRequest(c, "C18.b", s)
+	checkStreamReadDeadline(c, "C18.e", s.sendMsg)
 
 	// --- C18.c splitting arithmetic
 	pt, pf := c.T(s.prep), c.F(s.prep)
